@@ -38,6 +38,9 @@ def load_contracts(prop):
     flt = index.PROPS.get(prop, {}).get("unit_filter")
     if flt:
         out = [c for c in out if c.name in flt]
+    pfx = index.PROPS.get(prop, {}).get("unit_filter_prefix")
+    if pfx:
+        out = [c for c in out if any(c.name.startswith(p) for p in pfx)]
     return out
 
 
